@@ -174,6 +174,8 @@ pub struct MemSrv {
     cell: Arc<Mutex<String>>,
     texts: Arc<Mutex<std::collections::BTreeMap<String, String>>>,
     next: i64,
+    /// the shutdown request and exit notification `finish` sends (id 2)
+    pub closing: (Value, Value),
 }
 
 impl MemSrv {
@@ -197,6 +199,7 @@ impl MemSrv {
             cell,
             texts,
             next: 1_000_000,
+            closing: (json!({"id":2,"method":"shutdown","params":null}), json!({"method":"exit","params":null})),
         };
         s.c.sender
             .send(to_message(
@@ -292,18 +295,15 @@ impl Server for MemSrv {
     }
 
     fn finish_collect(mut self: Box<Self>) -> (Result<String, String>, Vec<Value>) {
-        let _ = self
-            .c
-            .sender
-            .send(to_message(&json!({"id":2,"method":"shutdown","params":null})));
-        let mut got_shutdown_response = false;
+        let _ = self.c.sender.send(to_message(&self.closing.0));
+        let mut shutdown_responses = 0u32;
         let mut extra = vec![];
         loop {
             match self.c.receiver.recv_timeout(Duration::from_secs(5)) {
                 Ok(m) => {
                     let v = serde_json::to_value(&m).unwrap();
                     if v.get("method").is_none() && v["id"] == json!(2) {
-                        got_shutdown_response = true;
+                        shutdown_responses += 1;
                         break;
                     }
                     extra.push(v);
@@ -311,10 +311,7 @@ impl Server for MemSrv {
                 Err(_) => break,
             }
         }
-        let _ = self
-            .c
-            .sender
-            .send(to_message(&json!({"method":"exit","params":null})));
+        let _ = self.c.sender.send(to_message(&self.closing.1));
         let h = self.h.take().unwrap();
         // join with a watchdog: poll is_finished
         let t0 = std::time::Instant::now();
@@ -324,9 +321,19 @@ impl Server for MemSrv {
             }
             std::thread::sleep(Duration::from_micros(50));
         }
+        // whatever the server still sent before it ended (a second answer to the shutdown request would be here)
+        while let Ok(m) = self.c.receiver.try_recv() {
+            let v = serde_json::to_value(&m).unwrap();
+            if v.get("method").is_none() && v["id"] == json!(2) {
+                shutdown_responses += 1;
+            } else {
+                extra.push(v);
+            }
+        }
         let r = match h.join() {
-            Ok(Ok(())) if got_shutdown_response => Ok("Ok(())".into()),
-            Ok(Ok(())) => Err("returned Ok(()) but shutdown was never answered".into()),
+            Ok(Ok(())) if shutdown_responses == 1 => Ok("Ok(())".into()),
+            Ok(Ok(())) if shutdown_responses == 0 => Err("returned Ok(()) but shutdown was never answered".into()),
+            Ok(Ok(())) => Err(format!("the shutdown request was answered {} times", shutdown_responses)),
             Ok(Err(e)) => Err(format!("server returned Err({})", e)),
             Err(_) => Err("server thread panicked".into()),
         };
@@ -394,8 +401,17 @@ fn read_frame(r: &mut BufReader<impl Read>) -> Option<Value> {
 
 impl StdioSrv {
     pub fn new() -> Result<StdioSrv, String> {
+        StdioSrv::with_flags(&[])
+    }
+    /// `flags` go before the command (`-vvvv`: logging is no part of the protocol)
+    pub fn with_flags(flags: &[&str]) -> Result<StdioSrv, String> {
+        StdioSrv::with_init(flags, &json!({"capabilities":{}}))
+    }
+    /// the parameters of the initialize request are the caller's (workspace folders, client capabilities …)
+    pub fn with_init(flags: &[&str], params: &Value) -> Result<StdioSrv, String> {
         let scratch = crate::util::Scratch::new("lsp");
         let mut child = Command::new(ironplcc_path())
+            .args(flags)
             .args(["lsp", "--stdio"])
             .env("TMPDIR", &scratch.path)
             .stdin(Stdio::piped())
@@ -419,7 +435,7 @@ impl StdioSrv {
             next: 1_000_000,
             _scratch: scratch,
         };
-        s.send(&json!({"id":1,"method":"initialize","params":{"capabilities":{}}}))
+        s.send(&json!({"id":1,"method":"initialize","params":params}))
             .map_err(|e| e.to_string())?;
         match s.rx.recv_timeout(WATCHDOG) {
             Ok(_) => {}
